@@ -307,7 +307,7 @@ impl<'a> Gen<'a> {
                     .collect()
             };
             let task_abort = self.cfg.task_abort && !legacy;
-            let w: [u32; 16] = [
+            let w: [u32; 17] = [
                 10,                                                    // 0 Req
                 if streams < 2 { 4 } else { 0 },                       // 1 Open
                 if streams > 0 { 7 } else { 0 },                       // 2 Next
@@ -324,6 +324,7 @@ impl<'a> Gen<'a> {
                 2,                                                     // 13 Hold
                 if spawn_ok && streams < 2 && !legacy_no_pipe { 3 } else { 0 }, // 14 SpawnPipe
                 if producer { 9 } else { 0 },                          // 15 Send
+                if joinable.is_empty() { 0 } else { 4 },               // 16 JoinMixed
             ];
             let choice = self.rng.weighted(&w);
             // anything but an immediate abort ends the "just spawned" window
@@ -449,6 +450,16 @@ impl<'a> Gen<'a> {
                         pipe: true,
                     });
                     streams += 1;
+                }
+                16 => {
+                    let k = self.rng.range(1, 2) as usize;
+                    let sites: Vec<u32> = (0..k).map(|_| self.site()).collect();
+                    let mut hs = joinable.clone();
+                    self.rng.shuffle(&mut hs);
+                    hs.truncate(self.rng.range(1, 2) as usize);
+                    instrs.push(Instr::JoinMixed { sites, handles: hs });
+                    regs += k;
+                    handles.iter_mut().for_each(|h| h.hard_block_since = true);
                 }
                 15 => {
                     let reg = if regs > 0 && self.rng.chance(2, 3) {
